@@ -19,6 +19,7 @@ import traceback
 from pathlib import Path
 
 VERIF = Path(__file__).resolve().parent.parent
+OUT = Path(os.environ.get("VERIF_OUT", str(VERIF)))  # where evidence/ and replays/ go (seed trials redirect it)
 REPO = Path(os.environ.get("VERIF_REPO", "/repo"))
 NPROC = int(os.environ.get("VERIF_NPROC", str(min(16, os.cpu_count() or 1))))
 
@@ -226,7 +227,7 @@ class Run:
         vacuity = [o for o in require_outcomes if self.outcomes.get(o, 0) == 0 and self.stats.get(o, 0) == 0]
         status = 0
         lines = []
-        replay_dir = VERIF / "replays" / self.prop
+        replay_dir = OUT / "replays" / self.prop
         if replay_dir.exists():
             for old in replay_dir.glob("*.json"):
                 old.unlink()
@@ -325,8 +326,8 @@ class Run:
 
 
 def write_evidence(prop, ev):
-    d = VERIF / "evidence"
-    d.mkdir(exist_ok=True)
+    d = OUT / "evidence"
+    d.mkdir(parents=True, exist_ok=True)
     txt = json.dumps(ev, indent=1, sort_keys=True, default=_json_default)
     ev2 = json.loads(txt)
     schema_path = VERIF / "schemas" / "EVIDENCE.schema.json"
